@@ -125,11 +125,69 @@ theorem after_close_errors (s : St) (hc : s.closed = true) :
     (getOp s).2 = .err .canceled ∧ (commit s).2 = some .canceled ∧ (close s).2 = some .once := by
   simp [getOp, commit, close, hc]
 
+/-- LINEARIZABILITY of a Get that has to wait.  The real Get is a loop of polls, each one critical section (`getOp`),
+    with arbitrary operations of other goroutines between the polls.  A poll that finds nothing changes nothing … -/
+theorem blocked_poll_is_noop (s : St) (h : (getOp s).2 = .blocked) : (getOp s).1 = s := by
+  unfold getOp at *
+  split
+  · rfl
+  · split
+    · split
+      · rename_i hh; simp [*] at h
+      · rfl
+    · split
+      · rename_i hh; simp [*] at h
+      · rfl
+
+/-- … so a Get consisting of any number of unsuccessful polls interleaved with other goroutines' operations, followed by
+    one successful poll, has exactly the effect and the result of that ONE poll: the whole call takes effect atomically
+    at the instant of its last poll (every attempt re-reads `rollback`, the source and the close flag under the mutex). -/
+def pollsThenOps : St → List (List Op) → St
+  | s, [] => s
+  | s, ops :: rest => pollsThenOps (run (getOp s).1 ops) rest
+
+theorem waiting_get_is_one_atomic_poll (s : St) (between : List (List Op))
+    (hblocked : ∀ (pre : List (List Op)) (post : List (List Op)), between = pre ++ post → post ≠ [] →
+      (getOp (pollsThenOps s pre)).2 = .blocked) :
+    pollsThenOps s between = between.foldl (fun s ops => run s ops) s := by
+  induction between generalizing s with
+  | nil => rfl
+  | cons ops rest ih =>
+    have h0 : (getOp s).2 = .blocked := hblocked [] (ops :: rest) rfl (by simp)
+    simp only [pollsThenOps, List.foldl_cons, blocked_poll_is_noop s h0]
+    apply ih
+    intro pre post e hp
+    have := hblocked (ops :: pre) post (by rw [e]; rfl) hp
+    simpa [pollsThenOps, blocked_poll_is_noop s h0] using this
+
+/-- a waiting Get is woken by a Rollback of another goroutine: the very next poll replays the oldest uncommitted value -/
+theorem waiting_get_sees_rollback (s : St) (hc : s.closed = false) (hle : s.rollback ≤ s.buffer.length) (hp : pending s ≠ 0)
+    (hb : (getOp s).2 = .blocked) : ∃ v, (getOp (rollbackOp s).1).2 = .val v ∧ s.buffer[0]? = some v := by
+  have hr0 : s.rollback = 0 := by
+    unfold getOp at hb
+    by_cases h : s.rollback > 0
+    · simp only [hc, Bool.false_eq_true, ↓reduceIte, h] at hb
+      have : s.buffer.length - s.rollback < s.buffer.length := by unfold pending at hp; omega
+      rw [List.getElem?_eq_getElem this] at hb; simp at hb
+    · omega
+  have hp' : ¬ (s.buffer.length - s.rollback = 0) := hp
+  have hlen : 0 < s.buffer.length := by unfold pending at hp; omega
+  refine ⟨s.buffer[0], ?_, List.getElem?_eq_getElem hlen⟩
+  have hne : s.buffer ≠ [] := fun e => by rw [e] at hlen; simp at hlen
+  have e : (rollbackOp s).1 = { s with rollback := s.buffer.length } := by
+    simp [rollbackOp, pending, hr0, hne]
+  rw [e]
+  simp [getOp, hc, hlen]
+
 /-! non-vacuity: rollback → partial re-read → rollback → commit, source closed afterwards -/
 def exampleTrace : List Op :=
   [.send 1, .send 2, .send 3, .get, .get, .rollback, .get, .rollback, .get, .commit, .closeSrc, .get, .get, .get]
 
 example : (run init exampleTrace).committed = [1] ∧ (run init exampleTrace).buffer = [2, 3] ∧
     (run init exampleTrace).rollback = 0 ∧ (run init exampleTrace).src = [] := by decide
+
+/-- non-vacuity of the waiting-Get theorems: two values read, a third Get blocks, another goroutine rolls back -/
+example : (getOp (run init [.send 1, .send 2, .get, .get])).2 = .blocked ∧
+    (getOp (rollbackOp (run init [.send 1, .send 2, .get, .get])).1).2 = .val 1 := by decide
 
 end BB.Props.C13
